@@ -253,9 +253,36 @@ def _recursive_case(rng, ident):
     return Case("F1", ident, program, qs)
 
 
+def _decl_case(rng, ident):
+    """variables whose ONLY occurrences are nested: inside a compound element of a list, an inner list, a list tail, a compound
+    inside a compound - in a body goal, on the right of `=`, in the head. Every one must be a variable of its own of the clause."""
+    wrappers = [lambda v: mklist([fun("g", v)]), lambda v: mklist([mklist([v])]), lambda v: mklist([A], v),
+                lambda v: fun("f", fun("g", v)), lambda v: mklist([B, fun("g", v, A)]), lambda v: fun("f", mklist([v]))]
+    w = rng.choice(wrappers)
+    w2 = rng.choice(wrappers)
+    V, V2, V3, Y, Z, L = var("V"), var("V2"), var("V3"), var("Y"), var("Z"), var("L")
+    program = [fact(fun("r", w(A), B)), fact(fun("r", w(C), C)),
+               (fun("q", Y), call(fun("r", w(V), Y))),
+               (fun("w", Z, L), eq(L, w2(V2))),
+               fact(fun("h", w(V3))),
+               (fun("k", Y), conj(call(fun("r", w2(V), Y)), call(fun("r", w(V2), Y))))]
+    # ground unification goals between terms whose printed forms look alike: decided by unification, not by their spelling
+    t1, t2 = rng.choice([(atom("f(a)"), fun("f", A)), (atom("[a]"), mklist([A])), (atom("a,b"), fun(",", A, B)) if False else (atom("g(a,b)"), fun("g", A, B)),
+                         (fun("f", atom("a b")), fun("f", atom("a  b"))), (int_(1), atom("1"))])
+    program += [(atom("t1"), conj(eq(t1, t2), TRUE)), (atom("t2"), conj(neq(t1, t2), TRUE)), (atom("t3"), conj(eq(t2, t2), TRUE)),
+                (atom("t4"), conj(neq(t1, t1), TRUE))]
+    P, Q = var("P"), var("Q")
+    queries = [call(fun("q", P)), call(fun("w", A, P)), call(fun("h", P)), call(fun("h", w(B))), call(fun("k", P)),
+               call(fun("w", P, w2(Q))), call(atom("t1")), call(atom("t2")), call(atom("t3")), call(atom("t4"))]
+    return Case("F1", ident, program, queries)
+
+
 def gen_F1(seed, count):
     rng = random.Random(seed)
     for i in range(count):
+        if i % 11 == 5:
+            yield _decl_case(rng, "F1-%d-%d-decl" % (seed, i))
+            continue
         if rng.random() < 0.3:
             yield _recursive_case(rng, "F1-%d-%d-rec" % (seed, i))
         else:
